@@ -166,12 +166,14 @@ impl FormMultipartData {
             let escaped_dash_boundary = boundary.replace(SYMBOL.hyphen, SYMBOL.empty_string);
 
             current_string_is_boundary = false;
-            if b.len() >= escaped_dash_boundary.len() {
-                let boxed_sequence = FormMultipartData::find_subsequence(b, escaped_dash_boundary.as_bytes());
-                if boxed_sequence.is_some() {
-                    current_string_is_boundary = true;
-                    _boundary_position = boxed_sequence.unwrap();
-                }
+            // the delimiter is compared the way it is in the headers part above: hyphens and the line ending are ignored
+            // on both sides and the line has to end with the boundary
+            let escaped_dash_line : Vec<u8> = b.iter()
+                .filter(|byte| **byte != b'-' && **byte != b'\r' && **byte != b'\n')
+                .map(|byte| *byte).collect();
+            if escaped_dash_boundary.len() > 0 && escaped_dash_line.ends_with(escaped_dash_boundary.as_bytes()) {
+                current_string_is_boundary = true;
+                _boundary_position = escaped_dash_line.len() - escaped_dash_boundary.len();
             }
 
             if !current_string_is_boundary {
@@ -231,9 +233,6 @@ impl FormMultipartData {
         Ok(boundary.to_string())
     }
 
-    fn find_subsequence(haystack: &[u8], needle: &[u8]) -> Option<usize> {
-        haystack.windows(needle.len()).position(|window| window == needle)
-    }
 
     pub fn generate_part(part: Part) -> Result<Vec<u8>, String> {
         if part.headers.len() == 0 {
